@@ -90,3 +90,8 @@ func (y *yieldIPAM) NodeSubnetsByIPRanges(r [][]nets.IPRange) (s sets.String, er
 	y.around("NodeSubnetsByIPRanges", func() { s, err = y.IPAM.NodeSubnetsByIPRanges(r) })
 	return
 }
+
+func (y *yieldIPAM) NodeSubnet(ip net.IP) (n *net.IPNet) {
+	y.around("NodeSubnet", func() { n = y.IPAM.NodeSubnet(ip) })
+	return
+}
